@@ -1,7 +1,7 @@
 (** * Proofs.GameThreefold — the double loop of [Game::can_declare_draw]
     ([for i in 1..len-1 { for j in 0..i { if l[i]==last && l[j]==last { return true }}}])
     answers [true] exactly when the last key occurs at least three times in the list. *)
-From Coq Require Import NArith List Lia Bool Arith.
+From Coq Require Import NArith List Lia Bool Arith FinFun.
 From Chess Require Import Model.Game Proofs.GameBase.
 Import ListNotations.
 
@@ -142,31 +142,31 @@ Lemma count_same_as_ge k l n :
 Proof.
   revert n. induction l as [|x l IH]; intro n.
   - cbn. split.
-    + intro H. exists []. assert (n = 0)%nat by lia. subst. repeat split; try constructor; intros i [].
+    + intro H. exists []. assert (n = 0)%nat by lia. subst.
+      split; [reflexivity|]. split; [constructor|]. intros i [].
     + intros (idx & Hl & _ & H). destruct idx as [|i idx]; [cbn in Hl; lia|].
       destruct (H i (or_introl eq_refl)); lia.
   - rewrite count_cons. unfold same_as at 1. split.
     + intro H. destruct (key_eqb x k) eqn:E.
       * apply key_eqb_eq in E. subst x. destruct n as [|n].
-        { exists []. repeat split; try constructor; intros i []. }
+        { exists []. split; [reflexivity|]. split; [constructor|]. intros i []. }
         assert (H' : (n <= count (same_as k) l)%nat) by lia.
         apply IH in H'. destruct H' as (idx & Hl & Hnd & Hi).
-        exists (0%nat :: map S idx). cbn [length]. rewrite map_length. repeat split.
-        -- lia.
+        exists (0%nat :: map S idx). cbn [length]. rewrite map_length.
+        split; [lia|]. split.
         -- constructor.
            ++ intro Hin. apply in_map_iff in Hin. destruct Hin as (j & Hj & _). discriminate.
-           ++ apply FinFun.Injective_map_NoDup; [intros a b Hab; lia|exact Hnd].
-        -- destruct H0 as [<-|Hin]; [cbn; lia|]. apply in_map_iff in Hin.
-           destruct Hin as (j & <- & Hj). cbn. apply Hi in Hj. lia.
-        -- destruct H0 as [<-|Hin]; [reflexivity|]. apply in_map_iff in Hin.
-           destruct Hin as (j & <- & Hj). cbn. apply Hi in Hj. tauto.
+           ++ apply Injective_map_NoDup; [intros a b Hab; lia|exact Hnd].
+        -- intros i [<-|Hin]; [cbn; split; [lia|reflexivity]|].
+           apply in_map_iff in Hin. destruct Hin as (j & <- & Hj). cbn. apply Hi in Hj.
+           split; [lia|tauto].
       * assert (H' : (n <= count (same_as k) l)%nat) by lia.
         apply IH in H'. destruct H' as (idx & Hl & Hnd & Hi).
-        exists (map S idx). rewrite map_length. repeat split.
-        -- exact Hl.
-        -- apply FinFun.Injective_map_NoDup; [intros a b Hab; lia|exact Hnd].
-        -- apply in_map_iff in H0. destruct H0 as (j & <- & Hj). cbn. apply Hi in Hj. lia.
-        -- apply in_map_iff in H0. destruct H0 as (j & <- & Hj). cbn. apply Hi in Hj. tauto.
+        exists (map S idx). rewrite map_length.
+        split; [exact Hl|]. split.
+        -- apply Injective_map_NoDup; [intros a b Hab; lia|exact Hnd].
+        -- intros i Hin. apply in_map_iff in Hin. destruct Hin as (j & <- & Hj). cbn.
+           apply Hi in Hj. split; [lia|tauto].
     + intros (idx & Hl & Hnd & Hi).
       (* split the index set into 0 and the successors *)
       set (idx' := map pred (filter (fun i => negb (Nat.eqb i 0)) idx)).
@@ -192,8 +192,11 @@ Proof.
           exfalso. apply Hn. left. reflexivity.
         - cbn [Nat.eqb negb length].
           destruct (in_dec Nat.eq_dec 0%nat idx) as [Hin|Hn];
-          destruct (in_dec Nat.eq_dec 0%nat (S i :: idx)) as [Hin'|Hn']; try lia.
-          destruct Hin' as [Hd|Hin']; [discriminate|contradiction]. }
+          destruct (in_dec Nat.eq_dec 0%nat (S i :: idx)) as [Hin'|Hn'].
+          + lia.
+          + exfalso. apply Hn'. right. exact Hin.
+          + destruct Hin' as [Hd|Hin']; [discriminate|contradiction].
+          + lia. }
       assert (Hc : (length idx' <= count (same_as k) l)%nat).
       { apply IH. exists idx'. repeat split; try assumption; apply Hidx'; assumption. }
       destruct (in_dec Nat.eq_dec 0%nat idx) as [H0|H0].
